@@ -168,7 +168,7 @@ CLAIMS = {
         technique="insertion-site key/coordinate source agreement, field-store scan, edge-dominance, flag evaluation by abstract interpretation, phase-rank analysis",
         text="Narrow clauses: the node map is private and every insertion keys a node by its own coordinate; coordinates are rewritten only in the contraction "
              "remap; compaction removes nodes only when four remain, re-trains with is_new_input=false, and Network::update (evaluated over the flag) cannot "
-             "reach grow_nodes without new input; population phases only move forward. Not decided: finiteness of weights/errors, capacity, lookup, elite bounds.",
+             "reach grow_nodes without new input; population phases only move forward. every re-assignment of an elite's capacity is followed by the truncation, every returned network creates and resizes node storages with config.node_size, compaction shifts each coordinate with its own axis' bounds and step. Not decided: finiteness of weights/errors, capacity, lookup, elite bounds.",
         note="Phase ranks are taken from the enum declaration order (re-confirmed on change).",
         ref="DESIGN.md §5 C19"),
     "C18": dict(
